@@ -606,9 +606,9 @@ func (c *Cluster) scriptReply(rec *CmdRec, d map[byte]int) []byte {
 		raw = raw[:512]
 	}
 	h := fnv(c.Seed, raw)
-	shape := int(h % 12)
+	shape := int(h % 16)
 	if v, ok := d['S']; ok {
-		shape = v % 12
+		shape = v % 16
 	}
 	key := []byte{}
 	if ks := keysOf(rec.Name, rec.Args); len(ks) > 0 {
@@ -671,8 +671,57 @@ func (c *Cluster) scriptReply(rec *CmdRec, d map[byte]int) []byte {
 		b.WriteString(":42\r\n")
 		b.WriteString("*2\r\n+inner\r\n$-1\r\n")
 		return b.Bytes()
-	default:
+	case 11:
 		return []byte(ErrCatalogue[int(h>>8)%len(ErrCatalogue)])
+	default: // 12..15: a pseudo-random nested value (null arrays, empty arrays, nil/empty bulks and integers at any depth and position)
+		var b bytes.Buffer
+		x := h
+		next := func(n uint64) uint64 {
+			x = (x ^ (x >> 29)) * 0xbf58476d1ce4e5b9
+			x ^= x >> 32
+			return x % n
+		}
+		var gen func(depth int)
+		gen = func(depth int) {
+			k := next(12)
+			if depth >= 4 && k >= 9 {
+				k = next(9)
+			}
+			switch k {
+			case 0:
+				b.WriteString("+st" + strconv.FormatUint(next(100), 10) + "\r\n")
+			case 1:
+				b.WriteString(":" + strconv.FormatInt(int64(next(2000000))-1000000, 10) + "\r\n")
+			case 2:
+				b.Write(NilBulk)
+			case 3:
+				b.Write(Bulk(nil))
+			case 4, 5:
+				b.Write(Bulk(append([]byte("n:"), key...)))
+			case 6:
+				b.WriteString("*-1\r\n")
+			case 7:
+				b.WriteString("*0\r\n")
+			case 8:
+				if next(4) == 0 {
+					b.WriteString("-ERR nested error element\r\n")
+				} else {
+					b.Write(Bulk([]byte("x\r\n*-1\r\n$-1\r\n")))
+				}
+			default:
+				n := int(next(6))
+				fmt.Fprintf(&b, "*%d\r\n", n)
+				for i := 0; i < n; i++ {
+					gen(depth + 1)
+				}
+			}
+		}
+		n := 1 + int(next(6))
+		fmt.Fprintf(&b, "*%d\r\n", n)
+		for i := 0; i < n; i++ {
+			gen(1)
+		}
+		return b.Bytes()
 	}
 }
 
